@@ -1,1 +1,259 @@
-/-! # C02 — property theorems (stub) -/
+import Okane.Props.C03
+/-!
+# C02 — balance assertions are enforced exactly and in file order
+-/
+set_option linter.unusedSectionVars false
+namespace Okane
+variable {α κ : Type} [DecidableEq α] [DecidableEq κ]
+open Spec
+
+/-- what `= X` claims about an account's holdings `b` -/
+def Spec.Holds (x : PostingAmt κ) (b : Amount κ) : Prop :=
+  match x with
+  | .zero => b = []                                        -- bare `= 0`: nothing in any commodity
+  | .single s => Amount.getPart b s.commodity = s.value    -- `= v C`: exactly v in C
+
+/-- the account balance a posting with amount `x` produces: previous holdings plus the amount, zero entries dropped -/
+def Spec.after (prev : Amount κ) (x : PostingAmt κ) : Amount κ := (prev.addPosting x).removeZero
+
+theorem assertFails_false_iff (cur : Amount κ) (x : PostingAmt κ) (hn : Amount.NoZero cur) :
+    assertFails cur (some x) = false ↔ Spec.Holds x cur := by
+  unfold assertFails Spec.Holds
+  cases x with
+  | zero =>
+    simp only [Amount.assertBalance]
+    by_cases hz : cur.isZero = true
+    · simp only [hz, if_true]
+      have := Amount.isEmpty_of_NoZero_isZero cur hn hz
+      simp [this, Amount.isAbsoluteZero]
+    · simp only [hz]
+      have hne : cur ≠ [] := by intro h; subst h; simp [Amount.isZero] at hz
+      cases cur with
+      | nil => exact absurd rfl hne
+      | cons hd tl => simp [Amount.neg, AMap.mapVals, Amount.isAbsoluteZero]
+  | single s =>
+    simp only [Amount.assertBalance]
+    by_cases hd : s.value - Amount.getPart cur s.commodity = 0
+    · simp only [hd, if_true, Amount.isAbsoluteZero]
+      have : Amount.getPart cur s.commodity = s.value := by grind
+      simp [this]
+    · simp only [hd, if_false, Amount.isAbsoluteZero]
+      have : ¬ Amount.getPart cur s.commodity = s.value := by grind
+      simp [this]
+
+/-- **C02_holds**: when a posting `acct  amt = X` is accepted, X is true of the account's balance after applying
+that posting (and everything the loop applied before it): exactly X in X's commodity, or nothing at all for `= 0`. -/
+theorem C02_holds (date : Date) (st st' : TxnState α κ) (idx : Nat) (p : RPosting α κ) (ra : RAmount κ) (x : PostingAmt κ)
+    (ha : p.amount = some ra) (hb : p.balance = some x)
+    (h : stepPosting date st idx p = .ok st') :
+    Balance.get st'.bal p.account = Spec.after (Balance.get st.bal p.account) ra.postingAmt ∧
+    Spec.Holds x (Balance.get st'.bal p.account) := by
+  rw [stepPosting_amount date st idx p ra ha] at h
+  split at h
+  · simp at h
+  · rename_i hf
+    simp only [Outcome.ok.injEq] at h; subst h
+    simp only [Balance.get_addPostingAmount, if_true, Spec.after, true_and]
+    rw [hb] at hf
+    simp only [Bool.not_eq_true] at hf
+    exact (assertFails_false_iff _ x (Amount.NoZero_removeZero _)).1 hf
+
+/-- **C02_reject**: a false assertion makes the step fail with an error that points at that posting and reports
+the balance actually computed (previous holdings plus the posting's amount) and the difference to X. -/
+theorem C02_reject (date : Date) (st : TxnState α κ) (idx : Nat) (p : RPosting α κ) (ra : RAmount κ) (x : PostingAmt κ)
+    (ha : p.amount = some ra) (hb : p.balance = some x)
+    (hfalse : ¬ Spec.Holds x (Spec.after (Balance.get st.bal p.account) ra.postingAmt)) :
+    stepPosting date st idx p =
+      .err (.assertionFailure idx (Spec.after (Balance.get st.bal p.account) ra.postingAmt)
+        ((Spec.after (Balance.get st.bal p.account) ra.postingAmt).assertBalance x)) := by
+  rw [stepPosting_amount date st idx p ra ha]
+  have hcur : (Balance.addPostingAmount st.bal p.account ra.postingAmt).2 =
+      Spec.after (Balance.get st.bal p.account) ra.postingAmt := rfl
+  rw [hcur, hb]
+  have : assertFails (Spec.after (Balance.get st.bal p.account) ra.postingAmt) (some x) = true := by
+    cases hf : assertFails (Spec.after (Balance.get st.bal p.account) ra.postingAmt) (some x) with
+    | true => rfl
+    | false => exact absurd ((assertFails_false_iff _ x (Amount.NoZero_removeZero _)).1 hf) hfalse
+  simp [this]
+
+/-- the difference reported for `= v C` is `v − computed(C)` in commodity C -/
+theorem C02_diff (cur : Amount κ) (s : SingleAmount κ) (hne : Amount.getPart cur s.commodity ≠ s.value) :
+    cur.assertBalance (.single s) = [(s.commodity, s.value - Amount.getPart cur s.commodity)] := by
+  unfold Amount.assertBalance
+  have : ¬ s.value - Amount.getPart cur s.commodity = 0 := by grind
+  simp [this]
+
+/-! ## the running balance is the file-order sum of what was posted -/
+
+/-- sum of the amounts posted to account `a` in commodity `c` -/
+def acctSum (outs : List (OutPosting α κ)) (a : α) (c : κ) : Rat :=
+  (outs.map fun o => if o.account = a then Amount.getPart o.amount c else 0).sum
+
+theorem acctSum_append (xs ys : List (OutPosting α κ)) (a : α) (c : κ) :
+    acctSum (xs ++ ys) a c = acctSum xs a c + acctSum ys a c := by
+  simp [acctSum, List.sum_append]
+
+/-- one step moves the posting's account by exactly the emitted amount (the omitted posting's placeholder
+is empty and moves nothing), keeps every other account, and keeps the balance invariant -/
+theorem step_balance (date : Date) (st st' : TxnState α κ) (idx : Nat) (p : RPosting α κ)
+    (h : stepPosting date st idx p = .ok st') (hinv : Balance.Inv st.bal) :
+    Balance.Inv st'.bal ∧
+    ∃ out, st'.postings = st.postings ++ [out] ∧ out.account = p.account ∧ AMap.WF out.amount ∧
+      ∀ a c, Amount.getPart (Balance.get st'.bal a) c =
+        Amount.getPart (Balance.get st.bal a) c + (if out.account = a then Amount.getPart out.amount c else 0) := by
+  cases ha : p.amount with
+  | some ra =>
+    rw [stepPosting_amount date st idx p ra ha] at h
+    split at h
+    · simp at h
+    · simp only [Outcome.ok.injEq] at h; subst h
+      refine ⟨Balance.Inv_addPostingAmount _ _ _ hinv, _, rfl, rfl, ?_, ?_⟩
+      · cases ra.postingAmt <;> simp [PostingAmt.toAmount, AMap.WF, AMap.keys]
+      · intro a c
+        exact Balance.getPart_addPostingAmount _ _ _ _ hinv c
+  | none =>
+    cases hb : p.balance with
+    | none =>
+      rw [stepPosting_omitted date st idx p ha hb] at h
+      split at h
+      · simp at h
+      · simp only [Outcome.ok.injEq] at h; subst h
+        exact ⟨hinv, _, rfl, rfl, AMap.WF_nil, fun a c => by simp⟩
+    | some x =>
+      rw [stepPosting_assign date st idx p x ha hb] at h
+      cases x with
+      | zero =>
+        cases hg : (Balance.get st.bal p.account).toPosting with
+        | ok prev =>
+          simp only [Balance.setPartial, hg, PostingAmt.checkSub, PostingAmt.checkAdd] at h
+          simp only [Outcome.ok.injEq] at h; subst h
+          refine ⟨?_, _, rfl, rfl, ?_, ?_⟩
+          · intro a
+            rw [Balance.get_insert]
+            by_cases h1 : p.account = a
+            · simp [h1, AMap.WF_nil, Amount.NoZero_nil]
+            · simp only [h1, if_false]; exact hinv a
+          · cases prev <;> simp [PostingAmt.neg, PostingAmt.toAmount, AMap.WF, AMap.keys]
+          · intro a c
+            rw [Balance.get_insert]
+            by_cases h1 : p.account = a
+            · subst h1
+              simp only [if_true]
+              -- previous holdings are exactly `prev`
+              have hprev : ∀ c, Amount.getPart (Balance.get st.bal p.account) c = Amount.getPart prev.toAmount c := by
+                intro c
+                unfold Amount.toPosting at hg
+                split at hg
+                · rename_i heq; simp only [Outcome.ok.injEq] at hg; subst hg; rw [heq]; rfl
+                · rename_i c' v heq; simp only [Outcome.ok.injEq] at hg; subst hg; rw [heq]; rfl
+                · simp at hg
+              rw [hprev c]
+              cases prev with
+              | zero => simp [PostingAmt.neg, PostingAmt.toAmount]
+              | single s =>
+                simp only [PostingAmt.neg, PostingAmt.toAmount, SingleAmount.neg, Amount.getPart, AMap.get?]
+                by_cases hc : s.commodity = c <;> simp [hc] <;> grind
+            · simp [h1]
+        | err e => simp [Balance.setPartial, hg] at h
+        | panic e => simp [Balance.setPartial, hg] at h
+        | fuelOut => simp [Balance.setPartial, hg] at h
+      | single s =>
+        simp only [Balance.setPartial, PostingAmt.checkSub, PostingAmt.neg, PostingAmt.checkAdd,
+          SingleAmount.checkAdd, SingleAmount.neg, Amount.setPartial_snd, if_true, Outcome.map'] at h
+        simp only [Outcome.ok.injEq] at h; subst h
+        refine ⟨?_, _, rfl, rfl, ?_, ?_⟩
+        · intro a
+          rw [Balance.get_insert]
+          by_cases h1 : p.account = a
+          · simp only [h1, if_true]
+            exact ⟨Amount.WF_setPartial _ _ (hinv a).1, Amount.NoZero_setPartial _ _ (hinv a).2⟩
+          · simp only [h1, if_false]; exact hinv a
+        · simp [PostingAmt.toAmount, AMap.WF, AMap.keys]
+        · intro a c
+          rw [Balance.get_insert]
+          by_cases h1 : p.account = a
+          · subst h1
+            simp only [if_true]
+            rw [Amount.setPartial_fst_getPart _ _ (hinv p.account).1]
+            simp only [PostingAmt.toAmount, Amount.getPart, AMap.get?]
+            by_cases hc : s.commodity = c
+            · subst hc; simp; grind
+            · simp [hc]
+          · simp [h1]
+
+/-- **C02_invariant**: after the posting loop every account's balance is its previous balance plus the sum, in file
+order, of the amounts the loop posted to it. -/
+theorem C02_invariant (date : Date) (ps : List (RPosting α κ)) (st st' : TxnState α κ) (idx : Nat)
+    (h : loopPostings date st idx ps = .ok st') (hinv : Balance.Inv st.bal) :
+    Balance.Inv st'.bal ∧ ∃ outs, st'.postings = st.postings ++ outs ∧ (∀ o ∈ outs, AMap.WF o.amount) ∧
+      ∀ a c, Amount.getPart (Balance.get st'.bal a) c = Amount.getPart (Balance.get st.bal a) c + acctSum outs a c := by
+  induction ps generalizing st idx with
+  | nil =>
+    simp [loopPostings] at h; subst h
+    exact ⟨hinv, [], by simp, by simp, fun a c => by simp [acctSum]⟩
+  | cons p ps ih =>
+    simp only [loopPostings] at h
+    split at h
+    · rename_i st1 h1
+      obtain ⟨hinv1, out, hp1, _, hwf, hmove⟩ := step_balance date st st1 idx p h1 hinv
+      obtain ⟨hinv', outs, hp', hwfs, hsum⟩ := ih st1 (idx + 1) h hinv1
+      refine ⟨hinv', out :: outs, by rw [hp', hp1]; simp, ?_, ?_⟩
+      · intro o ho
+        simp only [List.mem_cons] at ho
+        rcases ho with rfl | ho
+        · exact hwf
+        · exact hwfs o ho
+      · intro a c
+        rw [hsum a c, hmove a c]
+        simp only [acctSum, List.map_cons, List.sum_cons]
+        grind
+    all_goals simp at h
+
+end Okane
+
+namespace Okane
+variable {α κ : Type} [DecidableEq α] [DecidableEq κ]
+open Spec
+
+/-! ## the file-order reading at full strength is false of the code (finding F12)
+
+`A` (amount omitted) / `A  5 USD = 5 USD` is accepted although, in file order, account A holds
+`-5 + 5 = 0 USD` after the second posting: the omitted posting is booked after the assertions of its
+transaction were evaluated.  Accounts and commodities are numbers here (A = 0, USD = 1). -/
+
+/-- the witness transaction of F12 -/
+def f12Txn : RTxn Nat Nat :=
+  ⟨⟨2024, 1, 1⟩, [⟨0, none, none⟩, ⟨0, some (.plain (.single ⟨5, 1⟩)), some (.single ⟨5, 1⟩)⟩]⟩
+
+/-- it is accepted, the omitted posting receives −5, and the file-order balance of A after the asserted
+posting is 0, not the asserted 5 -/
+theorem C02_fileorder_false :
+    (match addTransaction (fun _ => none) [] f12Txn with
+     | .ok res => (res.txn.postings.map (·.amount) == [[(1, -5)], [(1, 5)]]) &&
+                  (acctSum (res.txn.postings.take 2) 0 1 == 0)
+     | _ => false) = true := by decide +kernel
+
+/-- **C02_fileorder_partial**: when an assertion is evaluated, the balance it is checked against (`C02_holds`) is
+the balance before the transaction plus the file-order sum of the amounts of the postings before it; the
+placeholder of an omitted-amount posting is empty (`loop_unfilled_empty` in C04), so the only deviation from the
+file-order sum over the *final* transaction is the deferred amount of the omitted posting, and it concerns the
+omitted posting's own account only (`C03_frame_step`).  Hence the file-order statement holds for every assertion
+except those on the omitted posting's account placed after it in the same transaction (F12). -/
+theorem C02_fileorder_partial (date : Date) (ps : List (RPosting α κ)) (st st' : TxnState α κ) (idx : Nat)
+    (h : loopPostings date st idx ps = .ok st') (hinv : Balance.Inv st.bal) :
+    ∃ outs, st'.postings = st.postings ++ outs ∧
+      (∀ o ∈ outs, ∃ p ∈ ps, p.account = o.account) ∧
+      ∀ a c, Amount.getPart (Balance.get st'.bal a) c = Amount.getPart (Balance.get st.bal a) c + acctSum outs a c := by
+  obtain ⟨_, outs, hp, _, hsum⟩ := C02_invariant date ps st st' idx h hinv
+  obtain ⟨outs', ds, hp', _, hal⟩ := loop_aligned date ps st st' idx h
+  have : outs = outs' := List.append_cancel_left (hp.symm.trans hp')
+  subst this
+  exact ⟨outs, hp, aligned_account ps outs ds hal, hsum⟩
+
+-- non-vacuity of C02_holds / C02_reject: a true and a false assertion after a history
+example : (addTransaction (α := Nat) (κ := Nat) (fun _ => none) [(0, [(1, 7)])]
+    ⟨⟨2024, 1, 1⟩, [⟨0, some (.plain (.single ⟨3, 1⟩)), some (.single ⟨10, 1⟩)⟩, ⟨1, none, none⟩]⟩).isOk = true := by decide +kernel
+example : (addTransaction (α := Nat) (κ := Nat) (fun _ => none) [(0, [(1, 7)])]
+    ⟨⟨2024, 1, 1⟩, [⟨0, some (.plain (.single ⟨3, 1⟩)), some (.single ⟨11, 1⟩)⟩, ⟨1, none, none⟩]⟩).isErr = true := by decide +kernel
+
+end Okane
